@@ -52,6 +52,16 @@ func TestModelsAgainstStdlib(t *testing.T) {
 			t.Fatalf("FormatInt(%d)", u)
 		}
 	}
+	for i := 0; i < 300000; i++ {
+		d := randStr(r, "0123456789abxoXfF_z", 6)
+		for _, base := range []int{0, 2, 8, 10, 16, 36, 1, 37} {
+			v, ok := ParseUintBase(d, base)
+			w, err := strconv.ParseUint(d, base, 64)
+			if ok != (err == nil) || (ok && v != w) {
+				t.Fatalf("ParseUint(%q,%d): %v %v vs %v %v", d, base, v, ok, w, err)
+			}
+		}
+	}
 	for _, d := range []string{"18446744073709551615", "18446744073709551616", "99999999999999999999", "00000000000000000000001", ""} {
 		v, ok := ParseUint10(d)
 		w, err := strconv.ParseUint(d, 10, 64)
